@@ -35,12 +35,14 @@ theorem swapIn_implies_quote {s s' : St} {d : Dir} {a minOut : Nat} {o : Out}
   exact ⟨(), h2, (), hro, (), hden, (), h7, trivial⟩
 
 /-- the quote is also sufficient: if `getAmountOut` answers, the pair is active, the caller's
-    minimum is met and fee routing succeeds, the swap goes through (no hidden extra guard) -/
+    minimum is met, fee routing succeeds and — the one guard output locking adds — the locking
+    address is simple-lock while locking is on, the swap goes through (no hidden extra guard) -/
 theorem quote_implies_swapIn {s : St} {d : Dir} {a minOut q : Nat}
     (hq : viewAmountOut s d a = some q) (hact : s.status = .active) (hmin : 0 < minOut)
     (hle : minOut ≤ q) (hq0 : q ≠ 0) (hoff : s.feeOn = false) (hbal : q ≤ s.balOut d)
-    (hk : s.r1 * s.r2 ≤ (swapMid s d a 0 q).r1 * (swapMid s d a 0 q).r2) :
-    ∃ s', swapIn s d a minOut = some (s', ⟨q, 0, 0⟩) := by
+    (hk : s.r1 * s.r2 ≤ (swapMid s d a 0 q).r1 * (swapMid s d a 0 q).r2)
+    (hlock : s.lockOn = true → s.lockSc = .simpleLock) :
+    ∃ s', swapIn s d a minOut = some (s', ⟨q, 0, 0, s.locksOut⟩) := by
   simp only [viewAmountOut, Option.bind_eq_bind, Option.bind_eq_some_iff, req_eq_some,
     Option.pure_def, Option.some.injEq] at hq
   obtain ⟨_, h1, _, h2, _, h3, _, h4, rfl⟩ := hq
@@ -54,8 +56,16 @@ theorem quote_implies_swapIn {s : St} {d : Dir} {a minOut q : Nat}
     cases d <;> simpa [St.setR, St.touch, St.balOut] using hbal
   have hb2 : ∀ x y, ((s.touch.setR d (s.rin d + a) (s.rout d - amountOut s.total a (s.rin d) (s.rout d))).setBal d x y).balOut d = y := by
     intro x y; cases d <;> rfl
+  have hm : ∀ x y u v, ((s.touch.setR d x y).setBal d u v).lockOn = s.lockOn ∧
+      ((s.touch.setR d x y).setBal d u v).lockSc = s.lockSc ∧
+      ((s.touch.setR d x y).setBal d u v).locksOut = s.locksOut := by
+    intro x y u v; cases d <;> exact ⟨rfl, rfl, rfl⟩
+  have hlk := fun x y u v => lockOut_ok ((s.touch.setR d x y).setBal d u v) d
+    (amountOut s.total a (s.rin d) (s.rout d))
+    (by rw [(hm x y u v).1, (hm x y u v).2.1]; exact hlock)
+  simp only [(hm _ _ _ _).2.2] at hlk
   simp [swapIn, req, sub?, hmin, h1, hact, hro, hle, h4, hq0, hoff, sendFee_zero, St.debitOut, hk', hb,
-    hb2]
+    hb2, hlk, addSlkOut_balOut]
 
 /-- whatever a fixed-output swap charges is exactly what `getAmountIn` promised -/
 theorem amountIn_quote_eq_exec {s s' : St} {d : Dir} {maxIn out q : Nat} {o : Out}
